@@ -19,6 +19,14 @@ lambdas spanning lines, lambdas as default values and decorator arguments; lambd
 update_wrapper, manual attribute) whose own parameters differ from the target's, next to a lambda with the target's
 parameter list.
 
+`layout=<seed>` (a second, independent random stream, so that the modules of the main stream keep their text) adds
+the layout of the FILE around and between the definitions: a prologue before the first statement (1..3 blank /
+blanks-only / tab-only / form-feed lines, a `#!` / coding / licence comment header, a module docstring, and
+combinations), an epilogue (trailing blank and blanks-only lines, or no final newline), and COLUMNS of lambdas:
+2..4 lambdas on consecutive lines with equal or different signatures -- as consecutive assignments, as the elements
+of a multi-line list / tuple / dict / call, at module level or in the body of a def or class -- some spanning two
+lines, optionally separated by a blank or comment line.
+
 `unsafe=True` adds the constructs of the known findings (backslash-newline inside a string literal,
 at the end of a comment, between two adjacent tokens; a lambda with a foreign `__signature__` attribute).
 """
@@ -62,8 +70,9 @@ def ctx():
 
 
 class Gen(object):
-    def __init__(self, rnd, style='spaces', unsafe=False, size=10):
+    def __init__(self, rnd, style='spaces', unsafe=False, size=10, layout=None):
         self.rnd = rnd
+        self.rnd2 = random.Random(layout) if layout is not None else None      # file layout stream
         self.style = style
         self.unsafe = unsafe
         self.n = 0
@@ -412,16 +421,92 @@ class Gen(object):
         if r.random() < 0.4:
             self.lambdas(sub)
 
+    # ---- file layout (second stream only: nothing here may draw from self.rnd)
+    def prologue(self):
+        r = self.rnd2
+        blank = lambda: r.choice(['', '', '', '   ', '\t', ' \t ', '\x0c', ' '])       # noqa: E731
+        header = lambda: r.choice([['#!/usr/bin/env python'], ['# -*- coding: utf-8 -*-'],      # noqa: E731
+                                   ['#!/usr/bin/env python', '# -*- coding: utf-8 -*-'],
+                                   ['# Copyright', '#', '# Licensed'], ['# c \\']])
+        doc = lambda: r.choice(['"""Module doc."""', "'''doc\n\n  more\n'''", 'r"""d\\d\n"""'])   # noqa: E731
+        k = r.random()
+        if k < 0.2:
+            return []
+        if k < 0.55:
+            return [blank() for _ in range(r.randint(1, 3))]
+        if k < 0.65:
+            return header()
+        if k < 0.75:
+            return header() + [blank() for _ in range(r.randint(1, 2))]
+        if k < 0.85:
+            return [blank() for _ in range(r.randint(1, 2))] + header() + [blank() for _ in range(r.randint(0, 2))]
+        if k < 0.92:
+            return [doc()] + [blank() for _ in range(r.randint(0, 1))]
+        return [blank() for _ in range(r.randint(1, 3))] + [doc()]
+
+    def lam2(self, params):
+        """a lambda (text, id) drawn from the layout stream; one or two lines"""
+        r = self.rnd2
+        i = self.fresh()
+        c = 1000 + i
+        k = r.random()
+        if k < 0.75:
+            return 'lambda %s: %d' % (params, c), i
+        if k < 0.9:
+            return 'lambda %s: (%d,\n%s%d)' % (params, c, ' ' * r.choice([0, 2, 9]), r.randint(0, 9)), i
+        return 'lambda %s: %d + \\\n %s2' % (params, c, ' ' * r.choice([0, 3])), i
+
+    def lambda_column(self):
+        """2..4 lambdas on consecutive lines"""
+        r = self.rnd2
+        n = r.randint(2, 4)
+        same = r.choice(['a', 'x', 'a, b', '', '*a'])
+        pool = ['a', 'b', 'a, b', '*a', 'a=1', '', 'x, y']
+        params = [same if r.random() < 0.6 else r.choice(pool) for _ in range(n)]
+        lams = [self.lam2(p) for p in params]
+        keys = ['l%d' % i for _, i in lams]
+        form = r.choice(['assign', 'assign', 'list', 'tuple', 'dict', 'call', 'def', 'class'])
+        gap = (lambda: [r.choice(['', '# c', '   '])] if r.random() < 0.15 else [])      # noqa: E731
+        out = []
+        if form in ('assign', 'def', 'class'):
+            ind = ''
+            if form == 'def':
+                fi = self.fresh()
+                ind = self.style == 'tabs' and '\t' or ' ' * r.choice([2, 4])
+                out.append('def f%d(x=None):' % fi)
+            elif form == 'class':
+                fi = self.fresh()
+                ind = self.style == 'tabs' and '\t' or ' ' * r.choice([2, 4])
+                out.append('class C%d(object):' % fi)
+            for (t, i), k in zip(lams, keys):
+                out.append('%sREG[%r] = %s' % (ind, k, t))
+                out += gap()
+            if form == 'def':
+                out += ['%sreturn x' % ind, 'REG[\'f%d\'] = f%d' % (fi, fi), '_call(f%d)' % fi]
+        else:
+            op, cl = {'list': ('[', ']'), 'tuple': ('(', ')'), 'dict': ('{', '}'), 'call': ('deco_args(', ')')}[form]
+            ind = ' ' * r.choice([0, 2, 4, 4, 7])
+            out.append('_col = %s' % op)
+            for j, ((t, i), k) in enumerate(zip(lams, keys)):
+                out.append('%s%s_reg(%r, %s),' % (ind, '%d: ' % j if form == 'dict' else '', k, t))
+                out += gap()
+            out.append(cl)
+        self.lines.extend(out)
+
     def module(self):
         r = self.rnd
-        self.lines = HEADER.split('\n')[:-1]
+        self.lines = (self.prologue() if self.rnd2 else []) + HEADER.split('\n')[:-1]
         self.lines += ['def _call(f, *a):',
                        '    for b, k in (((), {}), ((1,), {}), ((1, 2), {}), ((), {"k": 2})):',
                        '        try:', '            return f(*a, *b, **k)', '        except TypeError:',
                        '            pass', '    raise TypeError("cannot call")',
                        'def _reg(key, f):', '    REG[key] = f', '    return f', 'x = None']
+        columns = 0
         while self.budget > 0:
             self.budget -= 1
+            if self.rnd2 and self.rnd2.random() < 0.3:
+                self.lambda_column()
+                columns += 1
             if r.random() < 0.2:
                 self.comment('')
             k = r.random()
@@ -433,10 +518,15 @@ class Gen(object):
                 self.lambdas('')
             else:
                 self.stmt('', 0)
+        if self.rnd2:
+            if not columns or self.rnd2.random() < 0.3:
+                self.lambda_column()
+            tail = self.rnd2.choice(['\n', '\n', '\n\n', '\n   \n', '\n\n\t\n\n', '', '\n# end', '\n\x0c\n'])
+            return '\n'.join(self.lines) + tail
         return '\n'.join(self.lines) + '\n'
 
 
-def gen_module(seed, style='spaces', unsafe=False, size=10):
-    g = Gen(random.Random(seed), style=style, unsafe=unsafe, size=size)
+def gen_module(seed, style='spaces', unsafe=False, size=10, layout=None):
+    g = Gen(random.Random(seed), style=style, unsafe=unsafe, size=size, layout=layout)
     src = g.module()
     return src, g
